@@ -44,23 +44,24 @@ import GherkinVerif.Lemmas.NoCrashLoop
 import GherkinVerif.Lemmas.TextMain
 import GherkinVerif.Gen.ParserTable
 import GherkinVerif.Gen.Dialects
+import GherkinVerif.KDecide
 namespace GV
 
 /-! ### facts about the regenerated tables -/
 
 /-- the crash-freedom check of the transition table (typing computed, then checked) -/
-theorem C01_fact_no_crash : Spec.noCrashCheck Gen.parserTable 100000 = true := by decide +kernel
+theorem C01_fact_no_crash : Spec.noCrashCheck Gen.parserTable 100000 = true := by kdecide
 
 /-- no look-ahead expects or skips `EOF` / `Other` (termination) -/
-theorem C01A_fact_lookaheads : Spec.lookaheadsStopAtEOF Gen.parserTable = true := by decide +kernel
+theorem C01A_fact_lookaheads : Spec.lookaheadsStopAtEOF Gen.parserTable = true := by kdecide
 /-- the C05 keyword facts, and: no keyword starts with `"` or a backtick
     (= `C02T_fact_dialects`; Props/C02Text.lean cannot be imported together with the typed-stack
     lemmas, so the facts it uses are evaluated again here) -/
-theorem C01A_fact_dialects : Spec.textDialectFacts Gen.dialects = true := by decide +kernel
+theorem C01A_fact_dialects : Spec.textDialectFacts Gen.dialects = true := by kdecide
 /-- look-aheads uniform, tag states closed, guarded tests followed by tag-line tests -/
-theorem C01A_fact_queue : Spec.queueFacts Gen.parserTable = true := by decide +kernel
+theorem C01A_fact_queue : Spec.queueFacts Gen.parserTable = true := by kdecide
 /-- comment and blank lines are accepted by some test of every state -/
-theorem C01A_fact_comment_blank : Spec.commentBlankTested Gen.parserTable = true := by decide +kernel
+theorem C01A_fact_comment_blank : Spec.commentBlankTested Gen.parserTable = true := by kdecide
 
 /-! ### no crash -/
 
@@ -171,7 +172,7 @@ section examples
 
 /-- the typing computed for the regenerated table has an entry for each of the 42 states with a
     row and for the end state -/
-example : (Spec.ncompute Gen.parserTable 100000).length = 43 := by decide +kernel
+example : (Spec.ncompute Gen.parserTable 100000).length = 43 := by kdecide
 
 /-- … e.g. in state 12 (a step line of a scenario has been read) the open nodes are, innermost
     first, `Step` holding its `StepLine`, `Scenario` holding its `ScenarioLine`,
@@ -179,7 +180,7 @@ example : (Spec.ncompute Gen.parserTable 100000).length = 43 := by decide +kerne
     builder's root; the matcher is outside a doc string -/
 example : Spec.nlookup (Spec.ncompute Gen.parserTable 100000) 12 =
     some ([(.Step, [.tok .StepLine]), (.Scenario, [.tok .ScenarioLine]), (.ScenarioDefinition, []),
-      (.Feature, []), (.GherkinDocument, []), (.None_, [])], false) := by decide +kernel
+      (.Feature, []), (.GherkinDocument, []), (.None_, [])], false) := by kdecide
 
 /-- the outcome of a parse, flattened for comparison: `ok`, or the number of errors and whether
     they come as a `CompositeParserException`, or the message of a crash -/
@@ -211,7 +212,7 @@ example : [
     ""].map (tryDoc false) =
     [some ("composite", 1), some ("composite", 2), some ("composite", 1), some ("composite", 1),
      some ("ok", 0), some ("composite", 4), some ("composite", 11), some ("composite", 1),
-     some ("composite", 2), some ("ok", 0)] := by decide +kernel
+     some ("composite", 2), some ("ok", 0)] := by kdecide
 
 /-- the same in stop mode: the first error, bare -/
 example : [
@@ -221,7 +222,7 @@ example : [
     "foo\nbar\n1\n2\n3\n4\n5\n6\n7\n8\n9\n10\n11\n12",
     ""].map (tryDoc true) =
     [some ("single", 1), some ("single", 1), some ("single", 1), some ("single", 1), some ("ok", 0)] := by
-  decide +kernel
+  kdecide
 
 /-- The check is not vacuous, and the crash outcome is not unreachable by construction: a table
     whose free-text branch opens a `Step` node and closes it at once (without its step line) fails
@@ -235,7 +236,7 @@ example :
     let μ : MState := { defaultName := lit "en", name := lit "en", dialect := default }
     Spec.noCrashCheck badTable 100 = false ∧
     outcomeTag (parseWith [] badTable false μ 0 (lit "x\n")).1 =
-      ("crash: AttributeError: get_token(StepLine) is None", 0) := by decide +kernel
+      ("crash: AttributeError: get_token(StepLine) is None", 0) := by kdecide
 
 /-- … and so does a table with a branch into a state without row (`RuntimeError: Unknown state`) -/
 def badTable2 : Table :=
@@ -247,7 +248,7 @@ example :
     let μ : MState := { defaultName := lit "en", name := lit "en", dialect := default }
     Spec.noCrashCheck badTable2 100 = false ∧
     outcomeTag (parseWith [] badTable2 false μ 0 (lit "x\ny\n")).1 =
-      ("crash: RuntimeError: Unknown state: 7", 0) := by decide +kernel
+      ("crash: RuntimeError: Unknown state: 7", 0) := by kdecide
 
 end examples
 end GV
